@@ -682,12 +682,19 @@ pub fn explore(rep: &mut Report, sub: &Subject, cfg: &EnvCfg) {
                 fail(rep, p, &clause, msg, start, acts);
             } else if matches!(prop, "C09" | "C12" | "C10") {
                 // Record panics as foreign (C08) failures so that the evidence
-                // shows what blocked the exploration.
+                // shows what blocked the exploration. Except the stream's
+                // refusal of a commit or consume larger than the window
+                // offered: that is C09's own first clause.
                 if let Some((c, m)) = e.steps.iter().find_map(|s| match &s.verdict {
                     Verdict::Panic(p) => Some(("panic".to_string(), format!("work() panicked: {p}"))),
                     _ => None,
                 }) {
-                    fail(rep, "C08", &c, m, start, acts);
+                    let over = m.contains("tried to produce") || m.contains("trying to consume");
+                    if prop == "C09" && over {
+                        fail(rep, "C09", "window-exceeded", m, start, acts);
+                    } else {
+                        fail(rep, "C08", &c, m, start, acts);
+                    }
                 }
             }
             if rep.samples.len() < 5 && acts.len() >= 2 && rep.evaluations % 997 == 3 {
